@@ -1438,9 +1438,18 @@ def safe_run(spec, solver, history, mode):
                 "executed": 0, "skipped": 0, "raised": 0, "checks": 0}
 
 
+_FF_CACHE = {}
+
+
 def first_failure(spec, solver, history, mode):
-    r = safe_run(spec, solver, history, mode)
-    return r["failures"][0] if r["failures"] else None
+    """first failure of a history (memoised per process: shrinking asks for the same short histories again and again)"""
+    k = (spec["id"], solver, mode, json.dumps(history, sort_keys=True))
+    if k not in _FF_CACHE:
+        if len(_FF_CACHE) > 20000:
+            _FF_CACHE.clear()
+        r = safe_run(spec, solver, history, mode)
+        _FF_CACHE[k] = r["failures"][0] if r["failures"] else None
+    return _FF_CACHE[k]
 
 
 # =====================================================================================================================
@@ -1722,7 +1731,7 @@ def _hkey(spec_id, solver, hist):
 
 
 def _rank(spec, solver, wit):
-    """preference among witnesses of one key: shortest, then on a hand-built base, then a fixed order"""
+    """preference among witnesses: shortest, then a directed one, then on a hand-built base, then a fixed order"""
     global _DIRECTED_SET
     if _DIRECTED_SET is None:
         _DIRECTED_SET = {json.dumps([b, sv, h]) for b, sv, h in DIRECTED}
@@ -1733,7 +1742,13 @@ def _rank(spec, solver, wit):
 _DIRECTED_SET = None
 
 
-def _record(agg, spec, solver, hist, res):
+def witness_id(spec, solver, wit):
+    """exact, seed-independent identity of a minimal failing history (base, solver interface, canonical JSON of the steps)"""
+    return f"{spec['id']}|{solver}|{json.dumps(wit, separators=(',', ':'), sort_keys=True)}"
+
+
+def _record(agg, spec, solver, hist, res, source):
+    """every failing history is shrunk to a minimal one; failures are kept per class key and per exact minimal witness"""
     agg["evaluations"] += 1
     agg["steps"] += res["executed"]
     agg["raised"] += res["raised"]
@@ -1741,16 +1756,18 @@ def _record(agg, spec, solver, hist, res):
     if res["skipped"] == 0:
         agg["nontrivial"] += 1
     for key, text, step in res["failures"][:1]:
-        wit = hist[:step + 1]
-        if wit and wit[-1][0] == "exit":
-            wit = shrink(spec, solver, wit, key.split(":", 1)[0], key)
-            key = refine(key, wit)
-        cur = agg["failures"].get(key)
-        n = (cur[0] if cur else 0) + 1
-        if cur is None or _rank(spec, solver, wit) < _rank(cur[1], cur[2], cur[3]):
-            agg["failures"][key] = [n, spec, solver, wit, text]
+        mode = key.split(":", 1)[0]
+        wit = shrink(spec, solver, hist[:step + 1], mode, key)
+        if len(wit) != step + 1:
+            f = first_failure(spec, solver, wit, mode)
+            text = f[1] if f else text
+        key = refine(key, wit)
+        wid = witness_id(spec, solver, wit)
+        cur = agg["failures"].setdefault(source, {}).setdefault(key, {}).get(wid)
+        if cur is None:
+            agg["failures"][source][key][wid] = [1, spec, solver, wit, text]
         else:
-            cur[0] = n
+            cur[0] += 1
 
 
 def context_tag(wit):
@@ -1795,7 +1812,7 @@ def _worker(task):
         def rec(prefix):
             hist = _wrap(prefix, wrap)
             res = safe_run(spec, solver, hist, mode)
-            _record(agg, spec, solver, hist, res)
+            _record(agg, spec, solver, hist, res, "det")
             if len(prefix) >= depth:
                 return
             if res["failures"] or res["skipped"] > 0:
@@ -1814,7 +1831,7 @@ def _worker(task):
         for base, solver, hist in items:
             spec = bases[base] if isinstance(base, str) else base
             res = safe_run(spec, solver, hist, mode)
-            _record(agg, spec, solver, hist, res)
+            _record(agg, spec, solver, hist, res, "det")
     else:
         _, mode, specs, seed, chunk, n, max_depth = task
         rng = random.Random((seed * 7919 + chunk) * 104729 + 11)
@@ -1828,7 +1845,7 @@ def _worker(task):
                 continue
             agg["hashes"].add(h)
             res = safe_run(spec, solver, hist, mode)
-            _record(agg, spec, solver, hist, res)
+            _record(agg, spec, solver, hist, res, "rnd")
     return agg
 
 
@@ -1836,14 +1853,14 @@ def plan(tier, seed):
     """-> (exhaustive blocks [(spec, solver, alphabet name, depth, wrap)], random (specs, chunks, n per chunk, max depth))"""
     b0, b1, b2 = hand_bases()
     if tier == "quick":
-        ex = [(b0, "glpk", "quick", 2, 0), (b1, "glpk_exact", "quick>core", 2, 0), (b2, "glpk", "core", 2, 0),
+        ex = [(b0, "glpk", "quick>core", 2, 0), (b1, "glpk_exact", "core>quick", 2, 0), (b2, "glpk", "core", 2, 0),
               (b0, "glpk_exact", "core", 2, 1), (b1, "glpk", "core", 2, 1)]
-        rnd = ([b0, b1, b2] + gen_bases(seed, 5), 64, 72, 6)
+        rnd = ([b0, b1, b2] + gen_bases(seed, 5), 64, 48, 6)
     else:
         ex = [(b0, "glpk", "core", 3, 0), (b1, "glpk_exact", "core", 3, 0), (b0, "glpk_exact", "core", 3, 1)]
         for b, sv in ((b0, "glpk"), (b0, "glpk_exact"), (b1, "glpk"), (b1, "glpk_exact"), (b2, "glpk")):
             ex.append((b, sv, "full", 2, 0))
-        ex += [(b0, "glpk", "full", 2, 1), (b1, "glpk_exact", "quick", 2, 2)]
+        ex += [(b0, "glpk", "full", 2, 1), (b1, "glpk_exact", "quick", 2, 2), (b1, "glpk", "core", 2, 1)]   # contains the quick plan
         rnd = ([b0, b1, b2] + gen_bases(seed, 24), 192, 250, 8)
     return ex, rnd
 
@@ -1902,23 +1919,45 @@ def explore(mode, tier, seed, processes=16):
             for k in ("evaluations", "steps", "raised", "checks", "nontrivial", "pruned", "cpu"):
                 total[k] += agg[k]
             total["hashes"] |= agg["hashes"]
-            for key, (n, spec, solver, wit, text) in agg["failures"].items():
-                cur = total["failures"].get(key)
-                if cur is None:
-                    total["failures"][key] = [n, spec, solver, wit, text]
-                else:
-                    cur[0] += n
-                    if _rank(spec, solver, wit) < _rank(cur[1], cur[2], cur[3]):
-                        cur[1:] = [spec, solver, wit, text]
+            for source, per_key in agg["failures"].items():
+                for key, per_wit in per_key.items():
+                    for wid, (n, spec, solver, wit, text) in per_wit.items():
+                        cur = total["failures"].setdefault(source, {}).setdefault(key, {}).get(wid)
+                        if cur is None:
+                            total["failures"][source][key][wid] = [n, spec, solver, wit, text]
+                        else:
+                            cur[0] += n
+    det = total["failures"].get("det", {})
+    rnd = total["failures"].get("rnd", {})
     failures = []
-    for key in sorted(total["failures"]):
-        n, spec, solver, wit, text = total["failures"][key]
-        base_key = key.split("[", 1)[0]
-        wit = shrink(spec, solver, wit, mode, base_key)
-        f = first_failure(spec, solver, wit, mode)
-        key = refine(base_key, wit)
-        failures.append({"key": key, "failure": f"{f[1] if f else text}  [base {spec['id']}, {solver}; {n} histories of this run hit this key]",
-                         "replay": {"mode": mode, "base": spec, "solver": solver, "history": wit}})
+    loose = {}                                     # class key -> [n, best representative] of random witnesses in an open class
+    for key, per_wit in rnd.items():
+        for wid, rec in per_wit.items():
+            if wid in det.get(key, {}):
+                det[key][wid][0] += rec[0]        # the random part re-found a witness of the deterministic part
+            elif key in det:
+                cur = loose.get(key)
+                if cur is None:
+                    loose[key] = [rec[0], rec]
+                else:
+                    cur[0] += rec[0]
+                    if _rank(rec[1], rec[2], rec[3]) < _rank(cur[1][1], cur[1][2], cur[1][3]):
+                        cur[1] = rec
+            else:                                  # a class the deterministic part does not know: reported in full
+                failures.append({"key": key, "witness": wid, "source": "random",
+                                 "failure": f"{rec[4]}  [base {rec[1]['id']}, {rec[2]}; hit by {rec[0]} random histories]",
+                                 "replay": {"mode": mode, "base": rec[1], "solver": rec[2], "history": rec[3]}})
+    for key, per_wit in det.items():
+        for wid, (n, spec, solver, wit, text) in per_wit.items():
+            failures.append({"key": key, "witness": wid, "source": "deterministic",
+                             "failure": f"{text}  [base {spec['id']}, {solver}; minimal form of {n} failing histories of this run]",
+                             "replay": {"mode": mode, "base": spec, "solver": solver, "history": wit}})
+    for key, (n, rec) in loose.items():
+        failures.append({"key": key, "witness": "random:" + key, "source": "random",
+                         "failure": f"{rec[4]}  [base {rec[1]['id']}, {rec[2]}; {n} random histories shrink to minimal histories of this "
+                                    f"class that the deterministic part does not contain; this is the smallest]",
+                         "replay": {"mode": mode, "base": rec[1], "solver": rec[2], "history": rec[3]}})
+    failures.sort(key=lambda f: (f["key"], f["witness"]))
     b0 = hand_bases()[0]
     samples = [{"base": "B0", "solver": "glpk", "history": [alphabet("quick")[9], alphabet("quick")[16]]},
                {"base": "B1", "solver": "glpk_exact", "history": _wrap([alphabet("core")[3], alphabet("core")[20]], 1)}]
@@ -1954,7 +1993,17 @@ def _worker_idx(it):
     return idx, agg
 
 
+def known_lists(result):
+    """{class key: [witness ids of the deterministic part ..., "random:<class key>"]} of one run"""
+    out = {}
+    for f in result["failures"]:
+        if f["source"] == "deterministic":
+            out.setdefault(f["key"], []).append(f["witness"])
+    return {k: sorted(v) + ["random:" + k] for k, v in sorted(out.items())}
+
+
 def replay(payload):
     quiet()
+    _FF_CACHE.clear()
     f = first_failure(payload["base"], payload["solver"], payload["history"], payload["mode"])
     return None if f is None else f"{refine(f[0], payload['history'][:f[2] + 1])}: {f[1]}"
